@@ -146,6 +146,13 @@ where
         self.inner.lock().expect(NEVER_POISONED).is_empty()
     }
 
+    /// Verification hook: read-only snapshot of the pool's bookkeeping, see `crate::verif`.
+    #[cfg(folo_verif)]
+    #[must_use]
+    pub fn verif_probe(&self) -> crate::verif::PoolProbe {
+        self.inner.lock().expect(NEVER_POISONED).verif_probe()
+    }
+
     /// Ensures that the pool has capacity for at least `additional` more objects.
     ///
     /// # Panics
